@@ -499,6 +499,49 @@ def outcomes(body, cs):
             lab = yes if bval else no
             out.setdefault(lab, []).append(e)
             out.setdefault('success' if lab in SUCCESS else 'failure', []).append(e)
+    # a value rebuilt class for class from the call's outcome (`r.map(|_| echo)` written out: Ok(..) built on the Ok edge,
+    # Err(e) on the Err edge): a later match on the rebuilt value examines the same outcome
+    for _ in range(2):
+        grew = False
+        seen_sw = {e[1] for es in out.values() for e in es}
+        for i in body.switches():
+            if i in seen_sw:
+                continue
+            info = body.switch_info(i)
+            if info['kind'] != 'variant':
+                continue
+            s = sem(body, info['place'])
+            if s.kind == 'branch' and s.extra is not None and s.extra.kind == 'place':
+                s = s.extra
+            if not (s.kind == 'place' and s.extra == 'multi' and s.proj == ()):
+                continue
+            defs = body.whole_defs(s.local)
+            ok_ = len(defs) >= 2
+            for d in defs:
+                if d[0] != 'assign' or d[2]['rv']['r'] != 'agg' or d[2]['rv'].get('variant') not in (SUCCESS | FAILURE):
+                    ok_ = False
+                    break
+                cls_ = 'success' if d[2]['rv']['variant'] in SUCCESS else 'failure'
+                if not dominated_by_any(body, out.get(cls_, []), ('b', d[1])):
+                    ok_ = False
+                    break
+            if not ok_:
+                continue
+            t = body.blocks[i]['term']
+            for e in [('e', i, str(v)) for v, _ in t['vals']] + [('e', i, 'otherwise')]:
+                lab = body.edge_variant(e)
+                if lab is None or (e[2] == 'otherwise' and body.blocks[t['otherwise']]['term']['t'] == 'unreachable'):
+                    continue
+                out.setdefault(lab, []).append(e)
+                if lab in ('Continue', 'Break'):
+                    out.setdefault('Ok' if lab == 'Continue' else 'Err', []).append(e)
+                if lab in SUCCESS:
+                    out.setdefault('success', []).append(e)
+                if lab in FAILURE:
+                    out.setdefault('failure', []).append(e)
+                grew = True
+        if not grew:
+            break
     return out
 
 
@@ -611,6 +654,8 @@ def exits(body):
                 return
             if not pl['p'] and len(ds) > 1 and depth < 4 and not (l <= body.argc and l != 0) and l not in body.user_locals_named():
                 for d in ds:
+                    if d[1] != i and not body.reaches(('b', d[1]), ('b', i)):
+                        continue        # a definition in a private copy of the code (jump threading) that never gets here
                     if d[0] == 'call':
                         out.append({'node': d[2].ret, 'kind': 'call', 'cs': d[2]})
                     else:
@@ -637,6 +682,8 @@ def exits(body):
             if sm.kind == 'place' and sm.extra == 'multi' and not sm.proj and depth < 4 and sm.local not in body.user_locals_named():
                 # a temporary merged from several definitions (the returns of an awaited helper the view inlined)
                 for d in body.whole_defs(sm.local):
+                    if d[1] != i and not body.reaches(('b', d[1]), ('b', i)):
+                        continue
                     if d[0] == 'call':
                         out.append({'node': d[2].ret, 'kind': 'call', 'cs': d[2]})
                     else:
@@ -1219,7 +1266,9 @@ def through_checks(P, body, o):
     """semantic origin of an operand, looking through checked identity-on-success calls (value-preserving checks)"""
     s = sem(body, o)
     guard = 0
-    while s.kind == 'call' and s.checked and s.proj == ('<ok>',) and guard < 6:
+    def ok_payload(x):
+        return (x.checked and x.proj == ('<ok>',)) or _strip(x.proj, 'Ok') == () or _strip(x.proj, 'Some') == ()
+    while s.kind == 'call' and ok_payload(s) and guard < 6:
         ok = any(P.has(n) and identity_on_ok(P, n) for n in s.cs.names())
         if not ok:
             break
@@ -1726,3 +1775,16 @@ def int_value(body, o, _d=0):
         if op.startswith('Mul'):
             return a * b_
     return None
+
+
+def exit_sem(body, x):
+    """the value an exit returns as a semantic origin, whatever the kind of the exit"""
+    if x['kind'] == 'call':
+        return Sem('call', cs=x['cs'])
+    if x['kind'] == 'agg':
+        return Sem('agg', extra=x['rv'])
+    if x['kind'] == 'copy':
+        return x['sem']
+    if x['kind'] == 'const':
+        return sem(body, x['op'])
+    return Sem('other')
